@@ -50,6 +50,17 @@ type Contract struct {
 	File       string
 	Line       int
 	Notes      []string
+	AtCalls    []AtCall
+}
+
+type AtCall struct {
+	Callee string
+	Expr   *CExpr
+}
+
+type Lemma struct {
+	Name string
+	Expr *CExpr
 }
 
 type Pred struct {
@@ -70,6 +81,9 @@ type ContractFile struct {
 	Preds     map[string]*Pred
 	Ghosts    []GhostField
 	Raw       []string // all //@ lines (for assumption scan)
+	Invariants []*CExpr
+	Lemmas    []Lemma
+	Directives []string // engine-specific lines (frame/trace/gram tables), kept raw
 }
 
 func loadContractFile(pkgPath, dir string) (*ContractFile, error) {
@@ -130,6 +144,27 @@ func loadContractFile(pkgPath, dir string) (*ContractFile, error) {
 			tn, srt := splitWord(r2)
 			dot := strings.LastIndex(tn, ".")
 			cf.Ghosts = append(cf.Ghosts, GhostField{Type: tn[:dot], Name: tn[dot+1:], Sort: strings.TrimSpace(srt)})
+			cur = nil
+		case "invariant":
+			e, err := parseCExpr(rest)
+			if err != nil {
+				return nil, fail(err)
+			}
+			cf.Invariants = append(cf.Invariants, e)
+			cur = nil
+		case "lemma":
+			i := strings.Index(rest, ":")
+			if i < 0 {
+				return nil, fail(fmt.Errorf("lemma without name:"))
+			}
+			e, err := parseCExpr(rest[i+1:])
+			if err != nil {
+				return nil, fail(err)
+			}
+			cf.Lemmas = append(cf.Lemmas, Lemma{strings.TrimSpace(rest[:i]), e})
+			cur = nil
+		case "frame", "trace", "gram", "scan", "table":
+			cf.Directives = append(cf.Directives, body)
 			cur = nil
 		case "func":
 			cur = &Contract{Key: strings.TrimSpace(rest), Pkg: pkgPath, Loops: map[int]*LoopSpec{}, File: path, Line: ln + 1}
@@ -199,6 +234,17 @@ func loadContractFile(pkgPath, dir string) (*ContractFile, error) {
 				default:
 					return nil, fail(fmt.Errorf("unknown loop clause %s", kind))
 				}
+			case "at-call":
+				callee, r2 := splitWord(rest)
+				kw, r3 := splitWord(r2)
+				if kw != "assert" {
+					return nil, fail(fmt.Errorf("at-call <callee> assert <expr>"))
+				}
+				e, err := parseCExpr(r3)
+				if err != nil {
+					return nil, fail(err)
+				}
+				cur.AtCalls = append(cur.AtCalls, AtCall{callee, e})
 			case "props":
 				for _, p := range strings.Split(rest, ",") {
 					cur.Props = append(cur.Props, strings.TrimSpace(p))
